@@ -42,6 +42,7 @@ type CheckRun struct {
 	SolveSecs   float64
 	EngErrors   []string
 	Bounded     []string
+	Skipped     int
 }
 
 type Lock map[string][]string
@@ -133,7 +134,7 @@ func splitFields(s string) []string {
 
 func contractKind(kind string) bool {
 	switch {
-	case kind == "ensures", kind == "frame", kind == "cover", kind == "ensures-on-panic", kind == "lemma", kind == "sweep":
+	case kind == "ensures", kind == "frame", kind == "ensures-on-panic", kind == "lemma", kind == "sweep", kind == "nopanic":
 		return true
 	case strings.HasPrefix(kind, "loop"), strings.HasPrefix(kind, "assert-at"):
 		return true
@@ -143,10 +144,18 @@ func contractKind(kind string) bool {
 
 // runProperty generates and decides every obligation of one property.
 func runProperty(eng *Engine, prop, tier string, seed int, loadSecs float64) *CheckRun {
+	return runPropertyFiltered(eng, prop, tier, seed, loadSecs, nil, true)
+}
+
+// runPropertyFiltered: only restricts VC generation to the named functions when
+// only != nil (used by the must-fail corpus, where unchanged functions produce
+// byte-identical obligations); retry enables the long-budget retry of locked
+// obligations that time out.
+func runPropertyFiltered(eng *Engine, prop, tier string, seed int, loadSecs float64, only map[string]bool, retry bool) *CheckRun {
 	run := &CheckRun{Prop: prop, Tier: tier, Seed: seed, Assumptions: map[string]bool{}, LoadSecs: loadSecs}
 	budget := 4000
 	if tier == "thorough" {
-		budget = 60000
+		budget = 20000
 	}
 	if v := os.Getenv("GOVC_BUDGET_MS"); v != "" {
 		if n, err := strconv.Atoi(v); err == nil {
@@ -156,6 +165,9 @@ func runProperty(eng *Engine, prop, tier string, seed int, loadSecs float64) *Ch
 	t0 := time.Now()
 	var obls []*Obligation
 	for _, fn := range eng.funcsForProperty(prop) {
+		if only != nil && !only[fn.String()] {
+			continue
+		}
 		fr := eng.genFunc(fn, eng.conOf[fn])
 		run.Funcs = append(run.Funcs, shortFn(fn))
 		for _, e := range fr.Errors {
@@ -212,19 +224,59 @@ func runProperty(eng *Engine, prop, tier string, seed int, loadSecs float64) *Ch
 	run.EngErrors = uniq(run.EngErrors)
 	run.GenSecs = time.Since(t0).Seconds()
 	t1 := time.Now()
-	results := solveAll(obls, filepath.Join(verifDir, "out", prop), budget, seed, 16)
 	lock := readLock()
 	locked := map[string]bool{}
 	for _, n := range lock[prop] {
 		locked[n] = true
 	}
+	isLocked := func(o *Obligation) bool {
+		if locked[o.Name] {
+			return true
+		}
+		if contractKind(o.Kind) {
+			if i := strings.LastIndex(o.Name, "#"); i > 0 && locked[o.Name[:i]] {
+				return true
+			}
+		}
+		return false
+	}
+	// quick tier: only the claimed (locked) obligations and the vacuity guards of
+	// their functions are decided; the thorough tier also attempts every other
+	// generated obligation (reported as undecided-new when it does not discharge)
+	if tier == "quick" && len(locked) > 0 && os.Getenv("GOVC_ALL") == "" {
+		lockedFuncs := map[string]bool{}
+		for _, o := range obls {
+			if isLocked(o) {
+				lockedFuncs[o.Func] = true
+			}
+		}
+		var keep []*Obligation
+		skipped := 0
+		for _, o := range obls {
+			if isLocked(o) || (o.Cover && lockedFuncs[o.Func]) {
+				keep = append(keep, o)
+			} else {
+				skipped++
+			}
+		}
+		obls = keep
+		run.Skipped = skipped
+	}
+	if tier == "thorough" {
+		for _, o := range obls {
+			if !isLocked(o) {
+				o.Budget = 3000 // unclaimed obligations are only attempted
+			}
+		}
+	}
+	results := solveAll(obls, filepath.Join(verifDir, "out", prop), budget, seed, 16)
 	// retry locked obligations that timed out once with a longer budget
 	for i, r := range results {
 		want := "unsat"
 		if r.O.Cover {
 			want = "sat"
 		}
-		if locked[r.O.Name] && r.R.Status == "unknown" && budget < 30000 {
+		if retry && locked[r.O.Name] && r.R.Status == "unknown" && budget < 30000 {
 			rr := solve(r.File, 30000, seed+1)
 			rr.Secs += r.R.Secs
 			results[i].R = rr
@@ -252,8 +304,12 @@ func runProperty(eng *Engine, prop, tier string, seed int, loadSecs float64) *Ch
 		it.Backend = be + "+" + r.R.Solver
 		ok := r.R.Status == "unsat"
 		if r.O.Cover {
-			ok = r.R.Status == "sat"
+			// vacuity guard: the point must not be provably unreachable.  With
+			// quantified hypotheses solvers answer "unknown" instead of "sat";
+			// only a refutation (unsat) counts against the guard.
+			ok = r.R.Status != "unsat"
 			it.Backend = "cover+" + r.R.Solver
+			it.Locked = false
 		}
 		switch {
 		case ok:
@@ -278,6 +334,19 @@ func runProperty(eng *Engine, prop, tier string, seed int, loadSecs float64) *Ch
 		t := time.Now()
 		fr := eng.checkFrame(fs)
 		it := &Item{Name: fr.Name, Backend: "frame", Kind: "frame", Pos: fr.Pos, Detail: fr.Detail, Secs: time.Since(t).Seconds(), Locked: locked[fr.Name], contract: true}
+		if fr.OK {
+			it.Status = "discharged"
+		} else {
+			it.Status = "failed"
+		}
+		run.Items = append(run.Items, it)
+	}
+	for _, im := range eng.cs.Immutable {
+		if !hasString(im.Props, prop) {
+			continue
+		}
+		fr := eng.checkImmutable(im)
+		it := &Item{Name: fr.Name, Backend: "frame", Kind: "frame", Pos: fr.Pos, Detail: fr.Detail, Locked: locked[fr.Name], contract: true}
 		if fr.OK {
 			it.Status = "discharged"
 		} else {
@@ -365,9 +434,19 @@ func report(run *CheckRun, wall float64, selfOK bool, selfNotes []string) int {
 	claimed, discharged := 0, 0
 	byBackend := map[string]int{}
 	solverTime := 0.0
+	var refutedCovers []string
 	for _, it := range run.Items {
 		generated[it.Name] = true
 		solverTime += it.Secs
+		if it.Kind == "cover" {
+			// vacuity guards are reported, never locked and never a violation
+			if it.Status != "discharged" {
+				refutedCovers = append(refutedCovers, it.Name)
+			} else {
+				byBackend["cover"]++
+			}
+			continue
+		}
 		if f, ok := open[it.Name]; ok {
 			if it.Status != "discharged" {
 				known = append(known, fmt.Sprintf("KNOWN-FINDING: property=%s %s", run.Prop, f.Text))
@@ -460,8 +539,10 @@ func report(run *CheckRun, wall float64, selfOK bool, selfNotes []string) int {
 			"samples":                  samples,
 			"undecided_new":            und,
 			"undecided_new_count":      len(und),
+			"unclaimed_not_attempted":  run.Skipped,
 			"bounded":                  run.Bounded,
 			"known_findings":           known,
+			"vacuity_guards_refuted":   refutedCovers,
 			"selftest":                 selfNotes,
 			"load_s":                   round3(run.LoadSecs),
 			"vcgen_s":                  round3(run.GenSecs),
@@ -565,13 +646,14 @@ func cmdLock(args []string) int {
 	}
 	lock := readLock()
 	os.Setenv("GOVC_BUDGET_MS", "4000")
+	os.Setenv("GOVC_ALL", "1")
 	for _, p := range props {
 		count := map[string]int{}
 		slow := map[string]bool{}
 		for s := 0; s < *runs; s++ {
 			run := runProperty(eng, p, "quick", s*7+1, 0)
 			for _, it := range run.Items {
-				if it.Status == "discharged" {
+				if it.Status == "discharged" && it.Kind != "cover" {
 					count[it.Name]++
 					if it.Secs > 1.0 {
 						slow[it.Name] = true
